@@ -75,6 +75,42 @@ Example underscore_name_mangled_refuted :
     program_of_script script = None.
 Proof. exists "Y = _x + 1". eexists. split; [vm_compute; reflexivity|]. cbn [In]. repeat split; auto. Qed.
 
+(* statements that parse_model accepts (also with its syntax check) and that are NOT one assignment to the left-hand cell:
+   the text is what the rule says, the statement is outside the subset (program_of_script = None), and the real pass writes a
+   cell of an EXOGENOUS variable / assigns nothing / is not executed at all (known findings of C01) *)
+Definition sym_view (s : symbol) := (sname s, stype s, scode s).
+Example chained_assignment_refuted :
+  (exists syms, parse_model_nocheck "Y = Z = X" = POk syms /\
+     map sym_view syms = [(Some "Y", TEndogenous, Some "self._Y[t] = self._Z[t] = self._X[t]"); (Some "Z", TExogenous, None); (Some "X", TExogenous, None)]) /\
+  (exists syms, parse_model_nocheck "Y = X; Z = 1" = POk syms /\
+     map sym_view syms = [(Some "Y", TEndogenous, Some "self._Y[t] = self._X[t]; self._Z[t] = 1"); (Some "X", TExogenous, None); (Some "Z", TExogenous, None)]) /\
+  program_of_script "Y = Z = X" = None /\ program_of_script "Y = X; Z = 1" = None.
+Proof. split; [eexists; split; vm_compute; reflexivity|]. split; [eexists; split; vm_compute; reflexivity|]. split; vm_compute; reflexivity. Qed.
+Example comparison_statement_refuted :
+  (exists syms, parse_model_nocheck "Y == X" = POk syms /\
+     map sym_view syms = [(Some "Y", TEndogenous, Some "self._Y[t] == self._X[t]"); (Some "X", TExogenous, None)]) /\
+  program_of_script "Y == X" = None.
+Proof. split; [eexists; split; vm_compute; reflexivity|]. vm_compute; reflexivity. Qed.
+Example yield_statement_refuted :
+  (exists syms, parse_model_nocheck ("Z = (yield)" ++ lf ++ "Y = X") = POk syms /\
+     map sym_view (filter emits syms) = [(Some "Z", TEndogenous, Some "self._Z[t] = (yield)"); (Some "Y", TEndogenous, Some "self._Y[t] = self._X[t]")]) /\
+  program_of_script ("Z = (yield)" ++ lf ++ "Y = X") = None.
+Proof. split; [eexists; split; vm_compute; reflexivity|]. vm_compute; reflexivity. Qed.
+Example blank_in_dotted_name_refuted :
+  (exists syms, parse_model_nocheck "Y = np .sqrt(X)" = POk syms /\
+     map sym_view syms = [(Some "Y", TEndogenous, Some "self._Y[t] = self._np[t] .sqrt(self._X[t])"); (Some "np", TExogenous, None);
+                          (Some "sqrt", TFunction, None); (Some "X", TExogenous, None)]) /\
+  code_text "Y = np.sqrt(X)" = Some "self._Y[t] = np.sqrt(self._X[t])" /\ program_of_script "Y = np .sqrt(X)" = None.
+Proof. split; [eexists; split; vm_compute; reflexivity|]. split; vm_compute; reflexivity. Qed.
+(* Python-number traps that py_ok keeps out of the subset *)
+Example python_number_holes :
+  stmt_of_equation (row_of ["Y"; "X"]) "Y = X + 9007199254740993 * 3" = None /\
+  stmt_of_equation (row_of ["Y"; "X"]) "Y = X + 3 * 3" = Some ("Y", SAssign 0 0%Z (EBin OAdd (ERead 1 0%Z) (ENum "9"))) /\
+  py_ok (EBin OMul (ERead 1 0%Z) (ENum (String "1" (string_of_list_ascii (repeat "0"%char 400))))) = false /\
+  py_ok (EBin ODiv (ENum "1") (ENum (String "0" (String "." (string_of_list_ascii (repeat "0"%char 400 ++ ["1"%char])))))) = false /\
+  py_ok (EBin ODiv (ENum "1") (ENum "0.001")) = true.
+Proof. vm_compute. repeat split; reflexivity. Qed.
+
 (* a match of the whole statement that spans the first `=`: the two sides are lexed separately, the template is not,
    and terms and placeholders no longer correspond (this is why parse_equation_code_spec needs `aligned`) *)
 Example match_spanning_equals_refuted :
